@@ -58,6 +58,8 @@ structure Initial (s : St) : Prop where
   commits : s.commits = []
   idle : ∀ i, (s.h i).pc = .idle
   done : ∀ i, (s.h i).done = []
+  /-- representation convention: the content of a ring file that does not exist is the empty ring -/
+  missing : ∀ p, s.ex p = false → s.cur p = emptyRing
 
 theorem initial_inv (s : St) (h : Initial s) : Inv s.cur s where
   holder := by intro i hi; simp [inCS, h.idle i] at hi
@@ -71,6 +73,8 @@ theorem initial_inv (s : St) (h : Initial s) : Inv s.cur s where
   noNew := by intro p hp; exact absurd (h.new p) hp
   lin := by intro p; simp [commitsOn, h.commits, replay]
   mine := by intro i; simp [commitsBy, h.commits, h.done i, okWrites, h.idle i]
+  miss := by intro p hp; exact ⟨h.missing p hp, by simp [commitsOn, h.commits]⟩
+  crt := by intro i hi; simp [h.idle i] at hi
 
 /-- **Mutual exclusion.** Under every schedule at most one handle is between `Lock` and `Unlock`, and
 while one is, no reader holds the shared lock. -/
@@ -114,7 +118,7 @@ theorem v2_linearizable (s0 : St) (h0 : Initial s0) (sched : List Nat) :
   have hsim0 : Sim s0 (AState.init s0) :=
     ⟨fun _ => rfl, fun _ _ _ => rfl, by intro i hi; simp [h0.idle i] at hi,
      by intro i; simp [resultsOf, AState.init, h0.done i, pending_of_pc (s0.h i) (by simp [h0.idle i])],
-     by simp [committed, AState.init, h0.commits]⟩
+     by simp [committed, AState.init, h0.commits], fun _ => rfl⟩
   have hsim := run_sim s0.cur s0 _ sched hinv0 hsim0
   have hinv := run_inv s0.cur s0 sched hinv0
   exact ⟨fun p => (hsim.cur p).symm, ⟨hsim.commits, hinv.lin⟩, hsim.res, fun i h1 h2 => (hsim.snap i h1 h2).symm⟩
@@ -157,19 +161,17 @@ theorem reader_sees_complete_ring (s0 : St) (h0 : Initial s0) (sched : List Nat)
   have hinv := run_inv s0.cur s0 sched (initial_inv s0 h0)
   have hl := hinv.lin
   generalize run s0 sched = s at *
-  unfold stepCall at hget
-  simp only at hget
-  split at hget
-  · repeat' split at hget
-    all_goals simp at hget
-  · split at hget <;> (simp at hget; obtain ⟨rfl, rfl⟩ := hget; exact hl _)
-  · repeat' split at hget
-    all_goals simp at hget
-  · split at hget <;> simp at hget
-  · simp at hget
-  · simp at hget
-  · simp at hget; obtain ⟨rfl, rfl⟩ := hget; exact hl _
-  · simp at hget
+  have key : ∀ (c : Call), (stepCall s i).2 = c → ∀ p v, c = .get p v → v = s.cur p := by
+    intro c hc p v hcv
+    subst hcv
+    unfold stepCall at hc
+    simp only at hc
+    repeat' split at hc
+    all_goals first
+      | (simp at hc; done)
+      | (simp at hc; obtain ⟨rfl, rfl⟩ := hc; rfl)
+  rw [key _ hget p v rfl]
+  exact hl p
 
 /-- **A stale snapshot is safe.** Whatever snapshot a handle holds when it starts an operation, once
 it has read the ring under the lock its snapshot is the stored ring, and what it then writes is its
@@ -287,7 +289,7 @@ theorem stale_success_is_fresh_success (s0 : St) (h0 : Initial s0) (p : Nat) (hp
   have hsim0 : Sim s0 (AState.init s0) :=
     ⟨fun _ => rfl, fun _ _ _ => rfl, by intro i hi; simp [h0.idle i] at hi,
      by intro i; simp [resultsOf, AState.init, h0.done i, pending_of_pc (s0.h i) (by simp [h0.idle i])],
-     by simp [committed, AState.init, h0.commits]⟩
+     by simp [committed, AState.init, h0.commits], fun _ => rfl⟩
   have h0o : OrdInv p s0 :=
     ⟨hp.incr, hp.noImport, fun i hi _ => hp.snap i hi,
      by intro i _ hc; rcases hc with hc | hc <;> simp [h0.idle i] at hc,
@@ -308,7 +310,7 @@ def demo : St where
   h := fun i => ⟨0, ⟨[], noKey⟩, [], if i = 0 then [.addKey 10] else if i = 1 then [.addKey 11, .addKey 12] else [], [], .idle⟩
   commits := []
 
-example : Initial demo := ⟨rfl, rfl, fun _ => rfl, rfl, fun _ => rfl, fun _ => rfl⟩
+example : Initial demo := ⟨rfl, rfl, fun _ => rfl, rfl, fun _ => rfl, fun _ => rfl, fun _ h => nomatch h⟩
 
 /-- thread 1 loses the race with a stale snapshot (its seqnum 1 exists: `errTxKeyExists`), its
 retry with the refreshed snapshot succeeds: the final ring holds 10 then 12 with seqnums 1, 2 -/
@@ -361,7 +363,7 @@ theorem import_overwrite_order_counterexample :
     Initial s0 ∧ Incr (s0.cur 0) ∧ (∀ i, SnapPrefix (s0.h i).snap (s0.cur 0)) ∧
     ((run s0 [0, 0, 0, 0, 0, 1, 1, 1, 1, 1]).cur 0).seqs = [1, 2, 6, 3] ∧
     ¬ Incr ((run s0 [0, 0, 0, 0, 0, 1, 1, 1, 1, 1]).cur 0) := by
-  exact ⟨⟨rfl, rfl, fun _ => rfl, rfl, fun _ => rfl, fun _ => rfl⟩, by decide, fun _ => snapPrefix_refl _, by rfl, by decide⟩
+  exact ⟨⟨rfl, rfl, fun _ => rfl, rfl, fun _ => rfl, fun _ => rfl, fun _ h => nomatch h⟩, by decide, fun _ => snapPrefix_refl _, by rfl, by decide⟩
 
 /-- **One import next to a stale handle breaks the order, too** (same class as the known finding
 `import-race-lost-update`: the existence check of the import runs outside the lock that protects its
@@ -371,7 +373,7 @@ theorem import_stale_add_counterexample :
     let s0 := oneRing ⟨[], noKey⟩ fun i => (⟨[], noKey⟩, if i = 0 then [.importKeys [⟨5, 1, 10⟩, ⟨6, 1, 11⟩] noKey]
                                           else if i = 1 then [.addKey 13] else [])
     Initial s0 ∧ ((run s0 [0, 0, 0, 0, 0, 1, 1, 1, 1, 1]).cur 0).seqs = [5, 6, 1] := by
-  exact ⟨⟨rfl, rfl, fun _ => rfl, rfl, fun _ => rfl, fun _ => rfl⟩, by rfl⟩
+  exact ⟨⟨rfl, rfl, fun _ => rfl, rfl, fun _ => rfl, fun _ => rfl, fun _ h => nomatch h⟩, by rfl⟩
 
 /-- **The prefix hypothesis is needed** (no import involved): a ring with a gap in its numbering
 (1,2,6 – only an import produces one) and a handle whose snapshot 1,2 is not a prefix in the sense of
@@ -381,7 +383,7 @@ theorem stale_gap_counterexample :
       (⟨[⟨1, 1, 10⟩, ⟨2, 1, 11⟩], noKey⟩, if i = 0 then [.addKey 13] else [])
     Initial s0 ∧ Incr (s0.cur 0) ∧ (∀ i, ∀ op ∈ (s0.h i).todo, NoImport op) ∧
     ((run s0 [0, 0, 0, 0, 0]).cur 0).seqs = [1, 2, 6, 3] := by
-  refine ⟨⟨rfl, rfl, fun _ => rfl, rfl, fun _ => rfl, fun _ => rfl⟩, by decide, ?_, by rfl⟩
+  refine ⟨⟨rfl, rfl, fun _ => rfl, rfl, fun _ => rfl, fun _ => rfl, fun _ h => nomatch h⟩, by decide, ?_, by rfl⟩
   intro i op hop
   by_cases hi : i = 0
   · subst hi; simp [oneRing] at hop; subst hop; trivial
